@@ -1,6 +1,7 @@
 """C04 — exported files are well-formed modules (layout/quoting/unraw/escaping clauses)."""
 from rules import templates as T
 from rules import merge_rules as MR
+from rules import export_rules as E
 
 ASSUMPTIONS = ["parsing every possible output under a TypeScript grammar is NOT decided"]
 
@@ -9,6 +10,12 @@ def run(ctx):
     out = [T.quoting_rule(ctx.syn, "C04"), T.unraw_rule(ctx.syn, "C04"), T.quoted_sink_rule(ctx.syn, "C04"), MR.writer_reader_rule(ctx.syn, "C04", rule="C04.R5"), T.object_merge_rule(ctx.syn, "C04", "C04.R6"), T.paren_strip_rule(ctx.syn, "C04", "C04.R7"), T.empty_name_rule(ctx.syn, "C04")]
     for fs in ctx.featuresets():
         r = T.layout_rule(ctx.mir(fs)["ts_rs"], "C04")
+        if fs != "default":
+            r.rule += "@" + fs
+        out.append(r)
+    # the `format` feature adds a path on which the text to be written is replaced; it is analysed on every run
+    for fs in ["default", "format"] + (["allimpl"] if ctx.tier == "thorough" else []):
+        r = E.written_text_rule(ctx.mir(fs)["ts_rs"], "C04")
         if fs != "default":
             r.rule += "@" + fs
         out.append(r)
